@@ -194,6 +194,11 @@ impl CertConsumer for ASN1Writer<'_> {
         self.write_str(0x0c, s.as_bytes())
     }
 
+    fn ia5str(&mut self, _tag: &str, s: &str) -> Result<(), Error> {
+        // Note: ASN1 has multiple strings, this is IA5String
+        self.write_str(0x16, s.as_bytes())
+    }
+
     fn bitstr(&mut self, _tag: &str, truncate: bool, s: &[u8]) -> Result<(), Error> {
         // Note: ASN1 has multiple strings, this is BIT String
 
